@@ -34,3 +34,39 @@ PROPS["C01"] = dict(
     technique="bounded-exhaustive enumeration of input/parameter alphabets on the real code against a reference model",
     assumptions=["reference product in harness/vx.c (validated against a byte-per-entry triple loop at start-up)", "clang 14 ASan+UBSan builds: host cache sizes with SSE2, and L1/L2/L3 = 4K/32K/64K without SSE2"],
 )
+
+def _c02_runs(tier):
+    rs = []
+    for mode in ("tiny", "lift", "struct"):
+        rs.append(Run(C(), "harness/p_c02.c", ["--mode=" + mode, "--setbits=25"], group="host-" + mode))
+    rs.append(Run(C(sse2=0, **MIN), "harness/p_c02.c", ["--mode=lift", "--setbits=25"] + ([] if tier == "thorough" else ["--lift-b=65"]), group="host-lift"))
+    rs.append(Run(C(sse2=0, **MIN), "harness/p_c02.c", ["--mode=struct"], group="host-struct"))
+    rs.append(Run(C(**MIN), "harness/p_c02.c", ["--mode=big"], group="min-big"))
+    return rs
+
+PROPS["C02"] = dict(
+    level="exploration", runs=_c02_runs,
+    rule="entry points {naive, gauss_delayed, M4RI (k alphabet), PLUQ-based, hybrid, hybrid with every threshold} x full in {0,1} x inputs: TINY(N) = ALL matrices with <= N entries of every shape (N=14 quick / 18 thorough), LIFT = Kronecker lifts of ALL binary matrices with <= 8 (12) entries by blocks {7,33,65,(1,64)} x {identity, dense invertible, all-ones} x {plain, left-, both-side densified}, ECH = echelon forms over ALL subsets of 10 boundary pivot columns, RK = low-rank products on boundary shapes, BND = boundary shapes x structured patterns, plus threshold shapes of the min-cache build; non-trivial = rank > 0; distinct = distinct (input digest, entry point, full, k, threshold)",
+    level_text="Bounded-exhaustive differential exploration: every echelonisation entry point on every member of complete small-matrix domains and of structured families that place every block rank profile across word and table-block boundaries; rank, exact RREF, echelon shape, row space and top-reduction are compared with an independent Gaussian elimination.",
+    level_note="Bounded: all matrices only up to 14/18 entries; beyond that lifts of exhaustive cores and fixed families up to 1300 columns. Hybrid density heuristic is only entered for matrices with > 256 columns in the loop and at the start for dense inputs.",
+    technique="bounded-exhaustive enumeration (all small matrices, all lifted rank profiles) on the real code against a reference Gaussian elimination",
+    assumptions=["reference elimination in harness/vx.c validated against a byte-per-entry Gauss-Jordan at start-up", "clang 14 ASan+UBSan builds: host cache sizes with SSE2, min-cache with and without SSE2"],
+)
+
+def _c03_runs(tier):
+    rs = []
+    for mode in ("tiny", "lift", "struct"):
+        rs.append(Run(C(), "harness/p_c03.c", ["--mode=" + mode, "--setbits=25"], group="host-" + mode))
+    rs.append(Run(C(sse2=0, **MIN), "harness/p_c03.c", ["--mode=struct"], group="host-struct"))
+    rs.append(Run(C(sse2=0, **MIN), "harness/p_c03.c", ["--mode=lift", "--setbits=25"] + ([] if tier == "thorough" else ["--lift-b=65"]), group="host-lift"))
+    rs.append(Run(C(**MIN), "harness/p_c03.c", ["--mode=rec"], group="min-rec"))
+    return rs
+
+PROPS["C03"] = dict(
+    level="exploration", runs=_c03_runs,
+    rule="variants {mzd_ple, mzd_pluq (cutoffs), _mzd_ple_naive, _mzd_pluq_naive, _mzd_ple_russian, _mzd_pluq_russian (k alphabet 0..9)} x junk initial P,Q {identity, reversed, INT_MAX, 0xA5A5A5A5, pseudo-random} x inputs TINY(13/16) (ALL matrices up to that many entries), LIFT (all lifted rank profiles), ECH/RK/BND, and in the min-cache build REC = shapes just above the PLE cutoff with every (r1,r2) class incl. r1 % 64 == 0, r1 < n1, r2 >= 128; non-trivial = rank > 0; distinct = distinct (input digest, variant, parameter, junk)",
+    level_text="Bounded-exhaustive differential exploration: every PLE/PLUQ variant on complete small-matrix domains and structured rank-profile families, in builds whose cache sizes make the block-recursive algorithm (Schur complement, L compression, P/Q fix-up) reachable; the oracle reconstructs P*L*U*Q (resp. P*L*E) with an independent implementation of the LAPACK swap conventions and checks rank, profile, LAPACK form and zero storage outside L/U.",
+    level_note="Bounded as C02. The recursion is entered only in the min-cache build (8192-word cutoff); the host configuration needs > 2^19 words and is covered through its base case only.",
+    technique="bounded-exhaustive enumeration (all small matrices, lifted and block rank profiles) on the real code with an independent reconstruction oracle",
+    assumptions=["reference elimination and permutation conventions in harness (validated in DESIGN appendix A)", "clang 14 ASan+UBSan builds: host, min-cache with/without SSE2"],
+)
